@@ -125,6 +125,16 @@ pub enum Decision {
     Stall,
     /// read the whole request, wait until `release(latch)`, then answer success
     Hold(u32),
+    /// read the whole request, send the response HEAD and then go silent on that response until
+    /// `release_stalls()` / shutdown / the peer gives up. gRPC: HEADERS (200, application/grpc) without
+    /// END_STREAM, no DATA, no trailers, no reset — the connection stays up and later requests on it are
+    /// served normally; logged `Dropped` (no grpc-status ever arrives). HTTP/1: status line 200 + headers
+    /// announcing a 16-byte body that is withheld, connection closed at the end; logged `Acked`, because the
+    /// HTTP status is the whole acknowledgement there.
+    StallAfterHeaders,
+    /// like `StallAfterHeaders`, but part of the response body is sent first (gRPC: 3 of the 5 bytes of
+    /// the message prefix; HTTP/1: 4 of the 16 announced bytes)
+    StallMidBody,
 }
 
 #[derive(Clone, Copy, PartialEq, Eq, Debug, Serialize, Deserialize)]
